@@ -46,6 +46,7 @@ def R(srcname='src', dstname='dst'):
         ('R11.to_rgb', r'default_color_converter_impl<C1,rgb_t>\(\)\(src,tmp\);', 'CONVERT_C1_TO_RGB(src, &tmp);', False),
         ('R11.from_rgb', r'default_color_converter_impl<rgb_t,C2>\(\)\(\s*(pixel_make3\(.*?\))\s*,dst\);', r'{ pixel_t pm__ = \1; CONVERT_RGB_TO_C2(&pm__, dst); }', False),
         ('R11.alpha_or_max', r'alpha_or_max\(src\)', 'ALPHA_OR_MAX(src)', False),
+        ('R11.static_fill', r'static_fill\(dst,\s*([^;]+)\);', r'STATIC_FILL(dst, \1);', False),
         ('R9.ref_assign', r'(?<![\w.>\[])dst = (?!=)', '*dst = ', False),     # whole-object assignment through the reference parameter
     ]
 
@@ -96,7 +97,7 @@ __CPROVER_ensures(RET <= 255 && 255 * I64(RET) <= I64(in) + 127 && I64(in) <= 25
 __CPROVER_assigns()
 @@div255@@
 uint8_t channel_multiply(uint8_t a, uint8_t b)
-__CPROVER_ensures(255 * I64(RET) <= I64(a) * b + 127 && I64(a) * b <= 255 * I64(RET) + 127)
+__CPROVER_ensures(255 * (int32_t)RET <= (int32_t)a * b + 127 && (int32_t)a * b <= 255 * (int32_t)RET + 127)
 __CPROVER_assigns()
 @@mul_u8@@
 
@@ -180,15 +181,38 @@ __CPROVER_ensures(dst->ch[IDX_dst_red] == SPEC_R(src) && dst->ch[IDX_dst_green] 
 __CPROVER_ensures(dst->ch[IDX_dst_alpha] == 255)                                                                                         /* converting to rgba sets alpha to max */
 @@to_rgba@@
 #endif
+#define STATIC_FILL(d, v) do { (d)->ch[0] = (v); (d)->ch[1] = (v); (d)->ch[2] = (v); (d)->ch[3] = (v); (d)->ch[4] = (v); } while (0)     /* static_fill(p, v): every channel of p = v */
 #if SRC_IS_rgba && DST_IS_rgb
 #define CONVERT_RGB_TO_C2(pm, d) do { (d)->ch[IDX_dst_red] = (pm)->ch[0]; (d)->ch[IDX_dst_green] = (pm)->ch[1]; (d)->ch[IDX_dst_blue] = (pm)->ch[2]; } while (0)
 void from_rgba(const pixel_t* src, pixel_t* dst)
 __CPROVER_requires(P_OK(src) && P_OK(dst))
 __CPROVER_assigns(dst->ch)
 /* converting from rgba equals converting the alpha-premultiplied rgb: each colour is channel_multiply(colour, alpha) (within one level of c*a/255) */
-__CPROVER_ensures(255 * I64(dst->ch[IDX_dst_red]) - I64(src->ch[IDX_src_red]) * src->ch[IDX_src_alpha] <= 127 && I64(src->ch[IDX_src_red]) * src->ch[IDX_src_alpha] - 255 * I64(dst->ch[IDX_dst_red]) <= 127)
-__CPROVER_ensures(255 * I64(dst->ch[IDX_dst_green]) - I64(src->ch[IDX_src_green]) * src->ch[IDX_src_alpha] <= 127 && I64(src->ch[IDX_src_green]) * src->ch[IDX_src_alpha] - 255 * I64(dst->ch[IDX_dst_green]) <= 127)
-__CPROVER_ensures(255 * I64(dst->ch[IDX_dst_blue]) - I64(src->ch[IDX_src_blue]) * src->ch[IDX_src_alpha] <= 127 && I64(src->ch[IDX_src_blue]) * src->ch[IDX_src_alpha] - 255 * I64(dst->ch[IDX_dst_blue]) <= 127)
+__CPROVER_ensures(255 * (int32_t)dst->ch[IDX_dst_red] <= (int32_t)src->ch[IDX_src_red] * src->ch[IDX_src_alpha] + 127 && (int32_t)src->ch[IDX_src_red] * src->ch[IDX_src_alpha] <= 255 * (int32_t)dst->ch[IDX_dst_red] + 127)
+__CPROVER_ensures(255 * (int32_t)dst->ch[IDX_dst_green] <= (int32_t)src->ch[IDX_src_green] * src->ch[IDX_src_alpha] + 127 && (int32_t)src->ch[IDX_src_green] * src->ch[IDX_src_alpha] <= 255 * (int32_t)dst->ch[IDX_dst_green] + 127)
+__CPROVER_ensures(255 * (int32_t)dst->ch[IDX_dst_blue] <= (int32_t)src->ch[IDX_src_blue] * src->ch[IDX_src_alpha] + 127 && (int32_t)src->ch[IDX_src_blue] * src->ch[IDX_src_alpha] <= 255 * (int32_t)dst->ch[IDX_dst_blue] + 127)
+@@from_rgba@@
+#endif
+#if SRC_IS_rgba && DST_IS_cmyk
+pixel_t g_pm; _Bool g_pm_set;        /* ghost: the alpha-premultiplied rgb pixel (rgb_layout_t: indices 0,1,2) handed to the rgb converter */
+/* default_color_converter_impl<rgb_t,cmyk_t> applied to an rgb_layout_t pixel: its contract, proved on the real body in unit cc.rgb_cmyk */
+void rgb_to_cmyk_c(const pixel_t* src, pixel_t* dst)
+__CPROVER_requires(P_OK(src) && P_OK(dst))
+__CPROVER_assigns(dst->ch)
+__CPROVER_ensures(IMPLIES(src->ch[0] == 0 && src->ch[1] == 0 && src->ch[2] == 0, dst->ch[IDX_dst_cyan] == 0 && dst->ch[IDX_dst_magenta] == 0 && dst->ch[IDX_dst_yellow] == 0 && dst->ch[IDX_dst_black] == 255))   /* black -> black */
+__CPROVER_ensures(IMPLIES(src->ch[0] == 255 && src->ch[1] == 255 && src->ch[2] == 255, dst->ch[IDX_dst_cyan] == 0 && dst->ch[IDX_dst_magenta] == 0 && dst->ch[IDX_dst_yellow] == 0 && dst->ch[IDX_dst_black] == 0))   /* white -> white */
+{ uint8_t c, m, y, k; if (src->ch[0] == 0 && src->ch[1] == 0 && src->ch[2] == 0) { c = 0; m = 0; y = 0; k = 255; } if (src->ch[0] == 255 && src->ch[1] == 255 && src->ch[2] == 255) { c = 0; m = 0; y = 0; k = 0; }
+  dst->ch[IDX_dst_cyan] = c; dst->ch[IDX_dst_magenta] = m; dst->ch[IDX_dst_yellow] = y; dst->ch[IDX_dst_black] = k; }
+#define CONVERT_RGB_TO_C2(pm, d) do { g_pm = *(pm); g_pm_set = 1; rgb_to_cmyk_c((pm), (d)); } while (0)
+#define NEAR_PRODUCT(v, c, a) (255 * (int32_t)(v) <= (int32_t)(c) * (a) + 127 && (int32_t)(c) * (a) <= 255 * (int32_t)(v) + 127)
+void from_rgba(const pixel_t* src, pixel_t* dst)
+__CPROVER_requires(P_OK(src) && P_OK(dst) && !g_pm_set)
+__CPROVER_assigns(dst->ch, g_pm, g_pm_set)
+/* converting from rgba equals converting the alpha-premultiplied rgb: the rgb converter is applied to (r*a, g*a, b*a) (each within one level of c*a/255) ... */
+__CPROVER_ensures(g_pm_set && NEAR_PRODUCT(g_pm.ch[0], src->ch[IDX_src_red], src->ch[IDX_src_alpha]) && NEAR_PRODUCT(g_pm.ch[1], src->ch[IDX_src_green], src->ch[IDX_src_alpha]) && NEAR_PRODUCT(g_pm.ch[2], src->ch[IDX_src_blue], src->ch[IDX_src_alpha]))
+/* ... hence a fully transparent pixel (premultiplied black) becomes cmyk black and opaque white becomes cmyk white */
+__CPROVER_ensures(IMPLIES(src->ch[IDX_src_alpha] == 0, dst->ch[IDX_dst_cyan] == 0 && dst->ch[IDX_dst_magenta] == 0 && dst->ch[IDX_dst_yellow] == 0 && dst->ch[IDX_dst_black] == 255))
+__CPROVER_ensures(IMPLIES(src->ch[IDX_src_alpha] == 255 && src->ch[IDX_src_red] == 255 && src->ch[IDX_src_green] == 255 && src->ch[IDX_src_blue] == 255, dst->ch[IDX_dst_cyan] == 0 && dst->ch[IDX_dst_magenta] == 0 && dst->ch[IDX_dst_yellow] == 0 && dst->ch[IDX_dst_black] == 0))
 @@from_rgba@@
 #endif
 
@@ -228,8 +252,12 @@ void h_cmyk_to_gray(void){ pixel_t* s; pixel_t* d; cmyk_to_gray(s, d); __CPROVER
 #if (SRC_IS_gray || SRC_IS_rgb) && DST_IS_rgba
 void h_to_rgba(void){ pixel_t* s; pixel_t* d; to_rgba(s, d); __CPROVER_assert(0, "VACUITY"); }
 #endif
-#if SRC_IS_rgba && DST_IS_rgb
-void h_from_rgba(void){ pixel_t* s; pixel_t* d; from_rgba(s, d); __CPROVER_assert(0, "VACUITY"); }
+#if SRC_IS_rgba && (DST_IS_rgb || DST_IS_cmyk)
+void h_from_rgba(void){ pixel_t* s; pixel_t* d;
+#if DST_IS_cmyk
+  g_pm_set = 0;
+#endif
+  from_rgba(s, d); __CPROVER_assert(0, "VACUITY"); }
 #endif
 #ifdef ROUNDTRIP_UNIT
 /* rgb -> cmyk -> rgb returns the original within one 8-bit level: composition of the two real bodies, one cell per black level k */
@@ -284,6 +312,13 @@ template <typename D, typename C> typename std::enable_if<!boost::mp11::mp_conta
 same_rgb(D const&, C const&) { return true; }
 template <typename D> typename std::enable_if<boost::mp11::mp_contains<typename color_space_type<D>::type, alpha_t>::value, bool>::type alpha_max(D const& d) { return get_color(d, alpha_t()) == 255; }
 template <typename D> typename std::enable_if<!boost::mp11::mp_contains<typename color_space_type<D>::type, alpha_t>::value, bool>::type alpha_max(D const&) { return true; }
+// from an rgba source: the result is the conversion of the alpha-premultiplied rgb pixel
+template <typename S, typename D> typename std::enable_if<boost::mp11::mp_contains<typename color_space_type<S>::type, alpha_t>::value, long>::type from_rgba_check() { long bad = 0;
+  for (int a : {0, 1, 128, 254, 255}) for (int r : {0, 3, 200, 255}) for (int g : {0, 77, 255}) for (int b : {0, 130, 255}) { S s; get_color(s, red_t()) = r; get_color(s, green_t()) = g; get_color(s, blue_t()) = b; get_color(s, alpha_t()) = a;
+    rgb8_pixel_t pm(channel_multiply((std::uint8_t)r, (std::uint8_t)a), channel_multiply((std::uint8_t)g, (std::uint8_t)a), channel_multiply((std::uint8_t)b, (std::uint8_t)a)); D want, got; color_convert(pm, want); color_convert(s, got);
+    if (!(want == got)) { if (bad++ < 3) std::printf("rgba (%d,%d,%d,%d): conversion differs from the conversion of the premultiplied rgb pixel\n", r, g, b, a); } }
+  return bad; }
+template <typename S, typename D> typename std::enable_if<!boost::mp11::mp_contains<typename color_space_type<S>::type, alpha_t>::value, long>::type from_rgba_check() { return 0; }
 int main(int argc, char** argv){ vr::parse(argc, argv);
   long bad = 0, bada = 0;
   for (int a = 0; a < 256; a += 5) for (int b = 0; b < 256; b += 5) for (int c = 0; c < 256; c += 17) {
@@ -294,7 +329,8 @@ int main(int argc, char** argv){ vr::parse(argc, argv);
     if (!same_rgb(d, canon)) { if (bad++ < 3) std::printf("reference rgb (%d,%d,%d): colour channels (by name) differ from the canonical-layout conversion\n", a, b, c); }
     if (!boost::mp11::mp_contains<color_space_type<SRCP>::type, alpha_t>::value && !alpha_max(d)) bada++;
   }
-  if (bad) REPRODUCED("%ld pixels: color_convert into this layout does not pair channels by colour name", bad);
+  bad += from_rgba_check<SRCP, DSTP>();
+  if (bad) REPRODUCED("%ld pixels: color_convert into this layout does not pair channels by colour name / from rgba is not the conversion of the premultiplied rgb", bad);
   if (bada) REPRODUCED("%ld pixels: alpha not set to max when converting from a colour space without alpha", bada);
   NOT_REPRODUCED("conversions agree with the canonical-layout conversion"); }
 '''
@@ -332,7 +368,9 @@ for dl in ('rgba', 'bgra', 'argb', 'abgr'):
     add('gray_' + dl, 'gray8_pixel_t', dl + '8_pixel_t', ['to_rgba'], [Check('to_rgba', 'h_to_rgba', enforce='to_rgba')], tier='quick' if dl in ('bgra', 'argb') else 'thorough')
 add('bgr_argb', 'bgr8_pixel_t', 'argb8_pixel_t', ['to_rgba'], [Check('to_rgba', 'h_to_rgba', enforce='to_rgba')])
 for sl in ('rgba', 'abgr'):
-    add(sl + '_bgr', sl + '8_pixel_t', 'bgr8_pixel_t', ['from_rgba'], [Check('from_rgba', 'h_from_rgba', enforce='from_rgba', replace=['channel_multiply'], timeout=300)])
+    add(sl + '_bgr', sl + '8_pixel_t', 'bgr8_pixel_t', ['from_rgba'], [Check('from_rgba', 'h_from_rgba', enforce='from_rgba', replace=['channel_multiply'], timeout=300, flags=['--z3'])])
+for sl in ('rgba', 'abgr', 'bgra'):
+    add(sl + '_cmyk', sl + '8_pixel_t', 'cmyk8_pixel_t', ['from_rgba'], [Check('from_rgba', 'h_from_rgba', enforce='from_rgba', replace=['channel_multiply', 'rgb_to_cmyk_c'], timeout=300, flags=['--z3'])])
 # round trip rgb -> cmyk -> rgb, one cell per black level
 NEEDED['roundtrip'] = ['rgb_to_cmyk', 'cmyk_to_rgb']
 UNITS.append(Unit('cc.roundtrip', 'C09', C.replace('IDX_dst_red', 'IDX_src_red').replace('IDX_dst_green', 'IDX_src_green').replace('IDX_dst_blue', 'IDX_src_blue') if False else C,
